@@ -558,6 +558,8 @@ static void thr_case(void) {
         mon_count("lines_flushed_by_clean_up", (uint64_t)expected_lines - written_before_cleanup);
     }
     mon_fp(perturb_signature());
+    mon_distinct("interleaving_signatures", perturb_signature());
+
     mon_count("scenarios", 1);
     mon_count("log_calls", (uint64_t)total_msgs);
     mon_count("lines_expected", (uint64_t)expected_lines);
